@@ -339,7 +339,10 @@ def offsets(tier):
 
 
 def gen_diagonal(tier, rng):
-    for s in src_shapes(tier, rng):
+    extra = []
+    if tier == 'quick':     # the quick scope stops at rank 3: a few rank-4 sources so that every rank-4 axis pair is run too
+        extra = [[rng.randint(1, 3) for _ in range(4)] for _ in range(4)]
+    for s in src_shapes(tier, rng) + extra:
         r = len(s)
         if r < 2:
             continue
@@ -347,11 +350,11 @@ def gen_diagonal(tier, rng):
         pairs = [(p, q) for p in all_axes(r) for q in all_axes(r) if p % r != q % r]
         for p, q in pairs:
             neg = p < 0 or q < 0
-            # rank <= 3 (the exhaustive extents scope): every axis pair (both spellings) x every offset, so that the
-            # general theorems diagonal_shape / _elem / _inBounds are tied to the code on their whole small scope;
-            # rank 4 and the sampled larger rank-3 shapes: sampled offsets
+            # the exhaustive extents scope (rank <= 3 quick, <= 4 thorough): every axis pair (both spellings) x every
+            # offset, so that the general theorems diagonal_shape / _elem / _inBounds are tied to the code on their whole
+            # small scope; the extra rank-4 sources of the quick tier and the sampled larger rank-3 shapes: sampled offsets
             offs = offsets(tier)
-            if r >= 4 or (r >= 3 and any(e > scope(tier)[1] for e in s)):
+            if r > scope(tier)[0] or (r >= 3 and any(e > scope(tier)[1] for e in s)):
                 offs = sample(rng, offs, 1 if neg else 3)
             for off in offs:
                 yield Case('diagonal shape=%s offset=%d axis1=%d axis2=%d' % (fmt(s), off, p, q), H_B,
